@@ -1,33 +1,68 @@
-import QR.Model.Data
-import QR.Spec.Stream
-import QR.Proofs.Finite
+import QR.Proofs.Stream
 /-
-C06 - data bit stream (finite part so far: character-count widths, mode indicators, pad codewords).
+C06 - the data codewords of every symbol form a conformant ISO bit stream.
+Model side: `Model.dataBits` mirrors util.create_data (headers through BitBuffer.put, QRData.write, terminator, bit padding,
+alternating pad codewords).  Spec side: `Spec.readStream` is a *parser/recogniser* of the ISO grammar (mode indicator,
+count width by version class, group bounds 999/99/9 and 45^2, terminator <= 4 zero bits, zero bits to the codeword
+boundary, 0xEC/0x11 alternation up to the capacity).  All statements are for every segment list, every version 1..40,
+every level - unbounded in the number and length of segments.
 -/
 namespace QR.Props
-open QR
+open QR QR.Model
 
-def allModes : List Spec.Mode := [.numeric, .alnum, .byte]
+/-- **C06 (main)**: whenever `create_data` does not overflow, the ISO recogniser accepts the produced bit stream,
+    returns exactly the segments, and finds terminator / bit padding / pad codewords conformant -/
+theorem C06_stream {v : Nat} (h1 : 1 ≤ v) (h40 : v ≤ 40) (l : Spec.Level) {segs : List Seg}
+    (hvalid : ∀ s ∈ segs, s.Valid) {ps : List Spec.PSeg} (hps : toPSegs segs = some ps) {all : List Bool}
+    (h : dataBits v l.indicator segs = .ok all) :
+    Spec.readStream v all = some { segs := ps, tailConformant := true } :=
+  _root_.QR.C06_stream h1 h40 l hvalid hps h
 
-set_option maxRecDepth 100000 in
-/-- `length_in_bits(mode, v)` is ISO Table 3 for all 40 versions and the three modes (class boundaries 9|10, 26|27) -/
-theorem C06_widths : ∀ v, v < 40 → ∀ m ∈ allModes,
-    Model.lengthInBits m.indicator (v + 1) = .ok (Spec.countWidth (v + 1) m) := by
-  have h : (List.range 40).all (fun v => allModes.all fun m =>
-      match Model.lengthInBits m.indicator (v + 1) with
-      | .ok w => w == Spec.countWidth (v + 1) m
-      | .error _ => false) = true := by decide +kernel
-  intro v hv m hm
-  have := forall_mem_of_all (forall_lt_of_all h v hv) m hm
-  revert this
-  cases Model.lengthInBits m.indicator (v + 1) with
-  | ok b => intro h; simp at h; rw [h]
-  | error e => intro h; simp at h
+/-- the same for the data *codewords* (the packed bytes handed to `create_bytes`): they number exactly the ISO data
+    capacity of (v, l), are bytes, and read back to the segments -/
+theorem C06_codewords {v : Nat} (h1 : 1 ≤ v) (h40 : v ≤ 40) (l : Spec.Level) {segs : List Seg}
+    (hvalid : ∀ s ∈ segs, s.Valid) {ps : List Spec.PSeg} (hps : toPSegs segs = some ps) {all : List Bool}
+    (h : dataBits v l.indicator segs = .ok all) :
+    Spec.readStream v (writeBytes (packBytes all)) = some { segs := ps, tailConformant := true } ∧
+    (packBytes all).length = Spec.dataCodewords v l ∧ ∀ b ∈ packBytes all, b < 256 :=
+  _root_.QR.C06_codewords h1 h40 l hvalid hps h
 
-/-- mode indicators, pad codewords, numeric group widths and the alphanumeric table are the ISO ones -/
-theorem C06_constants :
+/-- overflow is decided exactly by the closed-form stream length against the capacity (shared with C03) -/
+theorem C06_overflow_iff {v : Nat} (h1 : 1 ≤ v) (h40 : v ≤ 40) (l : Spec.Level) {segs : List Seg}
+    (hvalid : ∀ s ∈ segs, s.Valid) {ps : List Spec.PSeg} (hps : toPSegs segs = some ps) :
+    dataBits v l.indicator segs = .error .dataOverflow ↔ Spec.streamBits v (segCounts ps) > Spec.capacityBits v l :=
+  _root_.QR.C06_overflow_iff h1 h40 l hvalid hps
+
+/-- and otherwise `create_data` (up to `create_bytes`) succeeds: no other error for valid segments -/
+theorem C06_ok_of_fits {v : Nat} (h1 : 1 ≤ v) (h40 : v ≤ 40) (l : Spec.Level) {segs : List Seg}
+    (hvalid : ∀ s ∈ segs, s.Valid) {ps : List Spec.PSeg} (hps : toPSegs segs = some ps)
+    (hfit : Spec.streamBits v (segCounts ps) ≤ Spec.capacityBits v l) :
+    ∃ all, dataBits v l.indicator segs = .ok all :=
+  _root_.QR.C06_ok_of_fits h1 h40 l hvalid hps hfit
+
+/-- a character count never overflows its count field in a stream that fits (so `put(len, width)` loses nothing) -/
+theorem C06_count_fits {v : Nat} (h1 : 1 ≤ v) (h40 : v ≤ 40) (l : Spec.Level) {ps : List Spec.PSeg}
+    (hfit : Spec.streamBits v (segCounts ps) ≤ Spec.capacityBits v l) :
+    ∀ p ∈ ps, p.data.length < 2 ^ Spec.countWidth v p.mode :=
+  _root_.QR.count_fits_of_fits h1 h40 l hfit
+
+/-- count widths = ISO Table 3 for all 40 versions x 3 modes (class boundaries 9|10 and 26|27); tables from the source -/
+theorem C06_count_widths : ∀ v, v < 40 → ∀ m ∈ allModes,
+    Model.lengthInBits m.indicator (v + 1) = .ok (Spec.countWidth (v + 1) m) := C06_widths
+
+/-- mode indicators, pad codewords, numeric group widths, alphanumeric table = ISO -/
+theorem C06_iso_constants :
     Gen.MODE_NUMBER = Spec.Mode.numeric.indicator ∧ Gen.MODE_ALPHA_NUM = Spec.Mode.alnum.indicator ∧
     Gen.MODE_8BIT_BYTE = Spec.Mode.byte.indicator ∧ Gen.PAD0 = 0xEC ∧ Gen.PAD1 = 0x11 ∧
-    Gen.NUMBER_LENGTH = [(1, 4), (2, 7), (3, 10)] ∧ Gen.ALPHA_NUM = Spec.alnumTable := by decide
+    Gen.NUMBER_LENGTH = [(1, 4), (2, 7), (3, 10)] ∧ Gen.ALPHA_NUM = Spec.alnumTable := C06_constants
+
+/-- non-vacuity: a mixed three-segment list at version 2-L satisfies the hypotheses -/
+example : (∀ s ∈ ([⟨1, [49, 50, 51, 52]⟩, ⟨2, [65, 32, 66]⟩, ⟨4, [0, 255, 104]⟩] : List Seg), s.Valid) := by
+  intro s hs
+  simp only [List.mem_cons, List.mem_nil_iff, or_false] at hs
+  rcases hs with rfl | rfl | rfl
+  · left; exact ⟨rfl, by decide⟩
+  · right; left; exact ⟨rfl, by decide⟩
+  · right; right; exact ⟨rfl, by decide⟩
 
 end QR.Props
